@@ -516,7 +516,7 @@ pub fn check_scase(c: &SCase) -> Outcome {
         }
     });
     if let Err((sig, msg)) = r {
-        if msg.starts_with("HANG") {
+        if msg.starts_with("HANG") || crate::tools::sampler::is_init_failure(&msg) {
             o.skipped = Some(msg);
             return o;
         }
